@@ -381,9 +381,55 @@ def observe_state(ctx, ds, mo, where):
     return True
 
 
+def time_labels_probe(da, ctx, z):
+    """a small Dataset over a datetime64 / timedelta64 dimension whose labels are changed through a dict or a callable - via the
+    dataset, one of its variables or the Axis: only the addressed labels change, their type stays, every holder sees them"""
+    unit = ['D', 'ns', 'h'][z % 3]
+    if unit == 'h':
+        lab = np.array([0, 6, 12], dtype='m8[h]')
+        step = np.timedelta64(1, 'h')
+    else:
+        lab = np.array(['2000-01-01', '2000-01-02', '2000-01-03'], dtype='M8[%s]' % unit)
+        step = np.timedelta64(1, 'D').astype('m8[%s]' % unit)
+    ds = da.Dataset()
+    ds['a'] = da.DimArray([1., 2., 3.], axes=[('time9', lab.copy())])
+    ds['b'] = da.DimArray(np.arange(6.).reshape(3, 2), axes=[('time9', lab.copy()), ('y9', ['u', 'v'])])
+    how = ['dict-ds', 'callable-ds', 'dict-var', 'callable-var', 'dict-axis', 'callable-axis'][(z // 3) % 6]
+    i = (z // 18) % 3
+    if how.startswith('dict'):
+        exp = lab.copy()
+        exp[i] = lab[i] + 40 * step
+        mapper = {lab[i]: exp[i]}
+    else:
+        exp = lab + step
+        mapper = lambda t: t + step
+    if how.endswith('ds'):
+        fn = lambda: ds.set_axis(mapper, axis='time9')
+    elif how.endswith('var'):
+        fn = lambda: dict.__getitem__(ds, 'b').set_axis(mapper, axis='time9', inplace=True)
+    else:
+        fn = lambda: ds.axes['time9'].set(mapper)
+    label = "Dataset over %s labels %s: relabel through a %s (%s)" % (lab.dtype, lab.astype(str).tolist(), how.split('-')[0], how.split('-')[1])
+    _, exc = ctx.call(label, fn, operands=(ds,), mutates=(ds,))
+    ctx.outcomes['time-labelled-relabels'] += 1
+    if exc is not None:
+        ctx.v(ID, "time-labels-raised", "%s raised %s: %s" % (label, type(exc).__name__, str(exc)[:150]))
+        return
+    ax = ds.axes['time9']
+    if ax.values.dtype != lab.dtype or not np.array_equal(ax.values, exp):
+        ctx.v(ID, "time-labels", "%s: the axis now holds %r (%s), expected %s (%s)" % (label, ax.values.tolist()[:3], ax.values.dtype, exp.astype(str).tolist(), lab.dtype))
+        return
+    for k_ in ('a', 'b'):
+        if dict.__getitem__(ds, k_).axes['time9'] is not ax:
+            ctx.v(ID, "time-labels-sharing", "%s: variable %r no longer holds the dataset's axis" % (label, k_))
+
+
 def check(case, ctx):
     da = __import__("vp.boot", fromlist=["boot"]).boot()
     steps = case["steps"]
+    if len(steps) % 4 == 1:
+        import zlib
+        time_labels_probe(da, ctx, zlib.crc32(repr([st_["op"] for st_ in steps]).encode()) + len(steps))
     mo = DSModel()
     ds = None
     kinds_seen = set()
